@@ -2034,8 +2034,9 @@ func throwUnhandledException(item stackitem.Item) {
 	panic(msg)
 }
 
-// ContractHasTryBlock checks if the currently executing contract has a TRY
-// block in one of its contexts.
+// ContractHasTryBlock checks if the currently executing contract has an
+// exception handler in one of its contexts that an exception can still stop at,
+// see handleException: a TRY block, or a CATCH block followed by FINALLY.
 func (v *VM) ContractHasTryBlock() bool {
 	var topctx *Context // Currently executing context.
 	for i := range v.istack {
@@ -2048,7 +2049,7 @@ func (v *VM) ContractHasTryBlock() bool {
 		}
 		for j := range ictx.tryStack.Len() {
 			eCtx := ictx.tryStack.Peek(j).Value().(*exceptionHandlingContext)
-			if eCtx.State == eTry {
+			if eCtx.State == eTry || (eCtx.State == eCatch && eCtx.HasFinally()) {
 				return true
 			}
 		}
